@@ -105,7 +105,7 @@ def decide(ctx: Ctx, mod) -> int:
             try:
                 # seed the search with the disagreeing cases, then a wider sweep
                 for b in ctx.broken:
-                    if b["kind"] == "correspondence" and hasattr(mod, "oracle_on_case"):
+                    if b["kind"] == "correspondence" and hasattr(mod, "oracle_on_case") and b.get("case") is not None:
                         mod.oracle_on_case(ctx, b["case"])
                 if len(ctx.violations) == before:
                     mod.run(ctx)
@@ -171,6 +171,14 @@ def main() -> int:
             mod.run(ctx)
         except core.Enough as ex:
             ctx.notes.append(str(ex))
+        except Infra:
+            raise
+        except Exception:
+            # the harness could not interpret what the implementation did (output of a shape no run of the unchanged
+            # tree produces): the correspondence no longer checks
+            ctx.broken.append({"kind": "correspondence", "case": None,
+                               "what": "the harness could not interpret the implementation's behaviour",
+                               "detail": traceback.format_exc()[-3000:]})
         rc = decide(ctx, mod)
         core.write_evidence(ctx, mod, violations=(1 if rc == 1 else 0), checker_cmd=checker_cmd)
         print(f"[{pid}] tier={a.tier} seed={seed} obligations={len(ctx.obligations)} "
